@@ -12,7 +12,9 @@ history   A case is {world, ops, sweep}.  `world` describes a small graph (regis
           look-up of every datasource of the world is compared with the model.  Spec sets may be declared
           late: `pre` operations (registrations on specs / through parsers, look-ups of specs and of the
           still unbound datasource objects) run first, then the SpecSet subclasses marked `late` are defined,
-          then `ops`.
+          then `ops`.  Operation `re` registers the strings of an earlier registration once more (another budget,
+          the same or another target): per datasource the largest budget registered for a string must be the one
+          in force, whatever the order.
 
 content   A case is {lines, filters, kind, ...}.  Tagged content is written into a sandbox file and
           taken through the application paths: host-side provider (really runs `grep -F` through a
@@ -24,7 +26,12 @@ content   A case is {lines, filters, kind, ...}.  Tagged content is written into
           they are declared as implementations, first_of wrapper declared after its member was used), how
           the collected copy is stored (write() after or before anything looked at .content, or the
           Hydration persister as broker observer, each with or without a Cleaner), the evaluation entry
-          point (dr.run / dr.run_all) and a second write-and-look on the same provider.
+          point (dr.run / dr.run_all) and a second write-and-look on the same provider; registration histories
+          of one string (several budgets, any order, same / other place) with the content predicates evaluated for
+          the budgets that must be in force; and a grep helper that does not do its work (cannot be started: OSError
+          out of the execution context; killed before it wrote anything; > 128 KiB of registered filters, which the
+          kernel refuses as one argument - nothing simulated): not collecting the spec is fine then, whatever IS
+          yielded or stored on the host must still satisfy the predicates.
 
 Nothing from insights.tests is imported (it monkey-patches filters.add_filter)."""
 import atexit
@@ -58,7 +65,11 @@ RULE = ("history: generated component graph (points F/M/P/R, 1-3 implementing sp
         "datasource objects under a host or archive context before they are declared implementations / "
         "wrapper declared after use) x how the collected copy is stored (write() after or before "
         ".content, Hydration.make_persister observer; with / without Cleaner) x dr.run / dr.run_all x "
-        "second write-and-look. Non-trivial content: >= 1 "
+        "second write-and-look x re-registrations of the same string with other budgets in any order (the largest "
+        "budget registered on a datasource must be in force; predicates (c)/(d) use it) x grep helper condition "
+        "(normal / cannot be started: OSError with one of 6 errnos from the context's check_output / killed without "
+        "output: status 137,124,143,-9,-15 / 60-400 KB of filters in 1-1500 strings, around and above the "
+        "128 KiB one argument may have). Non-trivial content: >= 1 "
         "line dropped and >= 1 kept on some path and (a filter has a regex metacharacter or leading "
         "dash, or a matching line was dropped because of an exhausted budget).")
 ASSUMPTIONS = [
@@ -66,8 +77,19 @@ ASSUMPTIONS = [
     "filters.ENABLED is true (INSIGHTS_FILTERS_ENABLED unset) - checked by selftest",
     "the harness model of 'where a registration lands' (first datasource(s) below a parser/combiner, "
     "filterable ones only) is the documented propagation rule of insights.core.filters.add_filter",
-    "when one filter string was registered with several budgets the budget in force may be any value "
-    "between the smallest and the largest registered one (the statement does not say which)",
+    "when one filter string is registered several times ON THE SAME datasource (directly or through parsers / "
+    "combiners that hand it down to that datasource) the largest budget asked for is the filter's budget, whatever "
+    "the order (add_filter merges with max(); insights/tests/core/test_filters.py pins it as '# max match'; a "
+    "registrant that asked for N lines loses matching lines otherwise although 'its' budget is not used up). When "
+    "the string is registered on SEVERAL datasources of a chain (an implementation and the spec it implements) the "
+    "statement does not say which budget counts: anything between the smallest and the largest of the "
+    "per-datasource budgets is accepted, and the content predicates use the smallest of them",
+    "a grep helper that cannot be started (OSError out of ExecutionContext.check_output, the documented override "
+    "point) or that ends without output and with the exit status of a killed process is something a host can do "
+    "to the provider at any time; the statement's 'content' is then whatever the provider yields: yielding "
+    "nothing (the exception that was injected, ContentException, CalledProcessError) is accepted, lines are held "
+    "to the predicates. A helper that ends with status >= 2 AND a diagnostic on its output is not generated: the "
+    "tree as it is takes that output as content (see design.d/C07.md, Round 5, observed)",
     "what a datasource object yields, and which filters a look-up reports for it, while no SpecSet subclass "
     "has declared it as an implementation is not part of the statement: such look-ups / evaluations are made "
     "(for what they may leave behind) but nothing is asserted about their results",
@@ -90,6 +112,14 @@ EXCLUDED = [
     "'any parser depending on it' is looser there; such mixed graphs are normalised away",
     "direct registrations on a spec that is itself implemented on top of another spec are only "
     "required to be in force for the upper spec and merely *allowed* for the lower one",
+    "a grep helper that ends with exit status >= 2 AND text on its output (a diagnostic such as 'grep: <path>: No "
+    "such file or directory' when the file vanishes between the creation of the provider and the first look, "
+    "'grep: memory exhausted', timeout's 'failed to run command'), or that is killed after it wrote part of its "
+    "output: the tree as it is takes whatever the helper wrote as the content (keep_rc=True, the status is only "
+    "stored); the statement quantifies over contents / filters / graphs / interleavings, not over a file that "
+    "changes under the provider - observed and reported (design.d/C07.md, Round 5), not generated. Generated "
+    "are the helper conditions under which the tree as it is yields nothing: cannot be started, killed without output",
+    "filters containing NUL (Popen refuses the argument: ValueError; not a text filter)",
 ]
 
 MAXB = 10000  # filters.MAX_MATCH (checked by selftest)
@@ -194,6 +224,7 @@ class Model(object):
         self.corder = []         # combiner names
         self.direct = {}         # ds -> {pattern: [budgets]}  registered with the ds as target
         self.via = {}            # ds -> {pattern: [budgets]}  registered through a parser/combiner
+        self._stored = {}        # memo of stored(), dropped for a datasource when a registration lands on it
         kinds = world["points"]
         self.kinds = kinds
 
@@ -321,6 +352,7 @@ class Model(object):
             return None
         book = self.direct if target in self.ds else self.via
         for d in where:
+            self._stored.pop(d, None)
             for p in patterns:
                 book.setdefault(d, {}).setdefault(p, []).append(budget)
         return where
@@ -357,6 +389,31 @@ class Model(object):
                 if k in own:
                     must.setdefault(pat, []).extend(bs)
         return must, may
+
+    # ---- budgets -----------------------------------------------------------------------------
+    def stored(self, k):
+        """pattern -> budget kept for it ON datasource `k`: the LARGEST one any registration that landed on `k`
+        (directly or through a parser / combiner) asked for, whatever the order of the registrations"""
+        out = self._stored.get(k)
+        if out is None:
+            out = self._stored[k] = {}
+            for book in (self.direct, self.via):
+                for pat, bs in book.get(k, {}).items():
+                    out[pat] = max(bs + ([out[pat]] if pat in out else []))
+        return out
+
+    def budget_bounds(self, c):
+        """pattern -> (lo, hi).  Every datasource of the chain of `c` keeps one budget per string (`stored`); when
+        the same string is registered on several datasources of the chain the statement does not say which of
+        them counts: anything between the smallest and the largest of the per-datasource budgets is accepted"""
+        out = {}
+        for k in self.upset(c):
+            if k not in self.direct and k not in self.via:
+                continue
+            for pat, b in self.stored(k).items():
+                lo, hi = out.get(pat, (b, b))
+                out[pat] = (min(lo, b), max(hi, b))
+        return out
 
 
 def dedup(xs):
@@ -511,6 +568,7 @@ def check_history(case):
     ops = ops + list(case["ops"])
     labels = set()
     looked = set()
+    done = []                    # successful registrations so far: (target name, strings)
     stale_windows = 0
     with _Isolation():
         comps, binders = build_world(world, model)
@@ -540,11 +598,19 @@ def check_history(case):
                         step, how, name, describe(model, name), sorted(got), sorted(must),
                         "" if set(must) == set(may) else " (at most %r)" % sorted(may)),
                     missing=lack, unexpected=extra, step=step, datasource=name, ops=ops[:step + 1])
+            bb = model.budget_bounds(name) if gotm else {}
             for pat, b in gotm.items():
-                lo, hi = min(may[pat]), max(may[pat])
+                lo, hi = bb[pat]
                 if type(b) is not int or not lo <= b <= hi:
-                    raise Violation("budget in force for filter %r on %s is %r; registered budgets: %r"
-                                    % (pat, name, b, sorted(may[pat])), step=step)
+                    raise Violation(
+                        "after step %d (%s) the match budget in force for filter %r on %s (%s) is %r; budgets "
+                        "registered for it so far: %r - the largest budget registered on a datasource counts for "
+                        "that datasource, whatever the order of the registrations (expected %s)" % (
+                            step, how, pat, name, describe(model, name), b, sorted(may[pat]),
+                            lo if lo == hi else "between %d and %d" % (lo, hi)),
+                        step=step, datasource=name, ops=ops[:step + 1],
+                        per_datasource=dict((k, model.stored(k)[pat]) for k in model.upset(name)
+                                            if pat in model.stored(k)))
             looked.add(name)
 
         for step, op in enumerate(ops):
@@ -571,8 +637,20 @@ def check_history(case):
                     for n in dsnames:
                         lookup(n, step, "declaration of the late spec sets")
             else:
-                target = model.resolve_target(op["t"])
-                pats, arg = _pattern_arg(op)
+                if kind == "re":
+                    # the strings of an earlier successful registration are registered once more - with another
+                    # budget, on the same target or through another one (several plugins ask for the same string)
+                    if done:
+                        t0, p0 = done[op.get("i", 0) % len(done)]
+                        target = t0 if op.get("same", True) else model.resolve_target(op["t"])
+                        src = p0[:1] if op.get("one") else p0
+                    else:
+                        target, src = model.resolve_target(op["t"]), ["a"]
+                    pats, arg = _pattern_arg({"pats": src, "pk": op.get("pk", "str")})
+                    labels.add("re-registration")
+                else:
+                    target = model.resolve_target(op["t"])
+                    pats, arg = _pattern_arg(op)
                 mm = op.get("mm", MAXB)
                 bad = op.get("bad") if kind == "bad" else None
                 if bad == "empty":
@@ -588,6 +666,7 @@ def check_history(case):
                           "mm-float": 2.0}[bad]
                 before = dict((n, model.bounds(n)) for n in dsnames)
                 if bad is None:
+                    prev = dict((d, model.stored(d)) for d in (model.land(target) or []))
                     where = model.register(target, pats, mm)
                 else:
                     where = None
@@ -616,6 +695,13 @@ def check_history(case):
                             lands_on=where)
                     if len(where) > 1:
                         labels.add("lands-on-several")
+                    done.append((target, list(pats)))
+                    for d in where:
+                        for p in pats:
+                            if p in prev[d]:
+                                labels.add("same-string-again-on-a-datasource:" + (
+                                    "larger-budget" if mm > prev[d][p] else
+                                    "smaller-budget" if mm < prev[d][p] else "same-budget"))
                     changed = [n for n in dsnames if set(model.bounds(n)[0]) != set(before[n][0])]
                     if any(n in looked for n in changed):
                         stale_windows += 1
@@ -718,15 +804,20 @@ _bad = st.fixed_dictionaries({"op": st.just("bad"), "t": _tref, "bad": st.sample
                               "pats": st.lists(_pat, min_size=1, max_size=2),
                               "mm": _budget, "kw": st.booleans()})
 _get = st.fixed_dictionaries({"op": st.just("get"), "t": _lref})
+# the strings of an earlier registration (index modulo the number of successful registrations so far) once more:
+# another budget, the same target or another one
+_re = st.fixed_dictionaries({"op": st.just("re"), "i": st.integers(0, 30), "same": st.sampled_from([True, True, False]),
+                             "one": st.booleans(), "t": _tref, "pk": st.sampled_from(["str", "str", "list", "set"]),
+                             "mm": _budget, "kw": st.booleans()})
 
 
 def strat_history(tier):
     nmax = 30 if tier == "quick" else 50
     # (one_of() removes repeated identical strategies, so weights are drawn explicitly)
-    op = st.integers(0, 5).flatmap(lambda i: (_add, _add, _add, _get, _get, _bad)[i])
+    op = st.integers(0, 6).flatmap(lambda i: (_add, _add, _add, _get, _get, _bad, _re)[i])
     # `pre`: what happens before the late spec sets are declared (registrations on the specs and through parsers,
     # as plugins do at import time, and look-ups of points and of the still unbound datasource objects)
-    pre = st.integers(0, 6).flatmap(lambda i: (_add, _add, _get, _get, _get, _get, _bad)[i])
+    pre = st.integers(0, 7).flatmap(lambda i: (_add, _add, _get, _get, _get, _get, _bad, _re)[i])
     return st.fixed_dictionaries({
         "world": _world(),
         "pre": st.lists(pre, max_size=6),
@@ -773,17 +864,64 @@ def _audit_stop():
     return ev
 
 
-def _recording_host_context(root, log):
-    """a HostContext whose check_output records the argv it is asked to run and really runs it"""
+def _is_prefilter(cmd):
+    """does the pipeline `cmd` (list of argv lists) contain the grep -F pre-filter stage"""
+    return isinstance(cmd, list) and any(isinstance(stage, list) and stage[:2] == ["grep", "-F"] for stage in cmd)
+
+
+def _recording_host_context(root, log, fault=None):
+    """a HostContext whose check_output records the argv it is asked to run and really runs it.
+
+    `fault` (optional) makes the pre-filter helper process fail the way the operating system makes it fail:
+    {"k": "oserror", "errno": n}  the process cannot be started (fork / exec failure: OSError out of Popen)
+    {"k": "killed", "rc": n}      it is killed before it wrote anything (the context's timeout, the OOM killer):
+                                  exit status n, no output - handed back the way insights.util.subproc.call does
+                                  (status and output with keep_rc, CalledProcessError without)
+    `first_only`: only the first pre-filter call fails.  Counters `seen` / `fired` are updated in place."""
     from insights.core.context import HostContext
+    from insights.core.exceptions import CalledProcessError
     ctx = HostContext(root)
     real = ctx.check_output
 
     def check_output(cmd, *a, **kw):
         log.append(cmd)
+        if fault is not None and _is_prefilter(cmd):
+            fault["seen"] += 1
+            if not (fault.get("first_only") and fault["seen"] > 1):
+                fault["fired"] += 1
+                if fault["k"] == "oserror":
+                    raise OSError(fault["errno"], os.strerror(fault["errno"]))
+                keep_rc = kw.get("keep_rc", a[1] if len(a) > 1 else False)
+                if keep_rc:
+                    return fault["rc"], u""
+                raise CalledProcessError(fault["rc"], cmd[0], u"")
         return real(cmd, *a, **kw)
     ctx.check_output = check_output
     return ctx
+
+
+def _abbr(x):
+    """long filter strings are shortened in messages (a case may register > 128 KiB of filters)"""
+    if isinstance(x, str):
+        return x if len(x) <= 64 else "%s...<%d characters>" % (x[:24], len(x))
+    if isinstance(x, (list, tuple)):
+        return [_abbr(i) for i in x[:24]] + (["...<%d more>" % (len(x) - 24)] if len(x) > 24 else [])
+    if isinstance(x, dict):
+        ks = sorted(x, key=repr)
+        out = dict((_abbr(k), _abbr(x[k])) for k in ks[:24])
+        if len(ks) > 24:
+            out["..."] = "<%d more>" % (len(ks) - 24)
+        return out
+    return x
+
+
+def bulk_patterns(spec):
+    """`n` distinct filter strings that are `size` characters long when joined by newlines (what the pre-filter
+    hands to grep as ONE argument; the kernel refuses a single argument of 128 KiB and more)"""
+    n = max(1, min(int(spec.get("n", 1)), 5000))
+    size = max(n * 13, min(int(spec.get("size", 0)), 600000))
+    each = (size + 1) // n - 1
+    return ["~bulk%05d~" % i + "x" * (each - 11) for i in range(n)]
 
 
 def matching(orig, fset):
@@ -791,9 +929,13 @@ def matching(orig, fset):
 
 
 def validate(path, orig, kept, budgets, exact):
-    """Validity predicates (a)-(d) of the design.  budgets: filter -> smallest registered budget.
+    """Validity predicates (a)-(d) of the design.  budgets: filter -> the budget that must at least be honoured
+    (the largest one registered on a datasource; the smallest of these over the datasources of the chain).
     Returns (number of dropped matching lines, number kept)."""
-    fset = sorted(budgets)
+    allf = sorted(budgets)
+    # a filter that is longer than every line matches nothing: left out of the loops (cases with > 128 KiB of filters)
+    longest = max([len(l) for l in orig] + [len(k) for k in kept if isinstance(k, str)] + [0])
+    fset = [f for f in allf if len(f) <= longest]
     if not isinstance(kept, list) or not all(isinstance(l, str) for l in kept):
         raise Violation("%s: content is not a list of text lines: %r" % (path, kept))
     # (a) order-preserving sub-sequence (non-empty lines are unique because of their tags)
@@ -806,21 +948,21 @@ def validate(path, orig, kept, budgets, exact):
             raise Violation("%s: output is not an order-preserving sub-sequence of the original lines: "
                             "line %r is not an original line at or after position %d" % (
                                 path, k, (idx[-1] + 1) if idx else 0),
-                            path=path, original=orig, output=kept, filters=fset)
+                            path=path, original=orig, output=kept, filters=_abbr(allf))
         idx.append(pos)
         pos += 1
     keptidx = set(idx)
     # (b) every kept non-empty line contains a filter
     for k in kept:
         if k and not any(f in k for f in fset):
-            raise Violation("%s: kept line %r contains none of the filters %r" % (path, k, fset),
+            raise Violation("%s: kept line %r contains none of the filters %r" % (path, k, _abbr(allf)),
                             path=path, original=orig, output=kept)
     # (c) the last line matching each filter is kept
     for f in fset:
         m = [i for i, l in enumerate(orig) if f in l]
         if m and m[-1] not in keptidx:
             raise Violation("%s: the last line matching filter %r (%r) was dropped" % (path, f, orig[m[-1]]),
-                            path=path, original=orig, output=kept, filters=fset, budgets=budgets)
+                            path=path, original=orig, output=kept, filters=_abbr(allf), budgets=_abbr(budgets))
     # (d) a dropped matching line needs an exhausted budget
     keptcount = dict((f, sum(1 for i in keptidx if f in orig[i])) for f in fset)
     dropped = 0
@@ -836,17 +978,21 @@ def validate(path, orig, kept, budgets, exact):
                 "%s: line %r matches %r and was dropped although no budget is used up (kept lines "
                 "per filter: %r, budgets: %r)" % (path, l, fs, dict((f, keptcount[f]) for f in fs),
                                                   dict((f, budgets[f]) for f in fs)),
-                path=path, original=orig, output=kept, filters=fset, budgets=budgets)
+                path=path, original=orig, output=kept, filters=_abbr(allf), budgets=_abbr(budgets))
     if exact:
         want = matching(orig, fset)
         if kept != want:
             raise Violation("%s: output differs from exactly the matching lines" % path, path=path,
-                            original=orig, output=kept, expected=want, filters=fset)
+                            original=orig, output=kept, expected=want, filters=_abbr(allf))
     return dropped, len(kept)
 
 
 KINDS = ("file", "first_file", "glob", "first_of", "cmd")
 PLACES = ("point", "host", "arch", "parser", "hparser")
+# the datasource a registration made at a place is stored on (a parser hands it down to the datasource it is built on)
+LANDS = {"point": "point", "parser": "point", "host": "host", "hparser": "host", "arch": "arch"}
+HELPERS = ("none", "oserror", "killed", "bulk")
+ERRNOS = ("ENOMEM", "EAGAIN", "ENOENT", "E2BIG", "EMFILE", "EACCES")
 PERSIST_MODES = ("content-first", "write-first", "observer")
 
 
@@ -885,9 +1031,14 @@ def check_content(case):
     from insights.core.serde import Hydration
     from insights.core.spec_factory import (ContentProvider, RegistryPoint, SpecSet, first_file,
                                             first_of, glob_file, simple_command, simple_file)
+    import errno as _errno
     kind = case["kind"]
     if kind not in KINDS:
         raise HarnessError("unknown kind %r" % kind)
+    helper = case.get("helper") or {}
+    hk = helper.get("k", "none")
+    if hk not in HELPERS or (hk == "oserror" and helper.get("errno") not in ERRNOS):
+        raise HarnessError("unknown helper condition %r" % (helper,))
     text, orig = build_lines(case)
     special = [ch for ch in u"\r\x00\x0b\x0c\x1c\x1d\x1e\x85\u2028\u2029" if ch in text]
     if (special and not case.get("outside_domain_ok")) or "password" in text:
@@ -931,17 +1082,32 @@ def check_content(case):
             else:
                 himpl = simple_command("/bin/cat %s" % fpath)
             aimpl = simple_file(rel, context=HostArchiveContext)
-            hb, ab, pb = {}, {}, {}      # filter -> smallest registered budget, per look-up target
+            # filter -> budget, per datasource the registrations are stored on: the LARGEST budget registered there
+            # for the string counts, whatever the order of the registrations
+            stored = {"point": {}, "host": {}, "arch": {}}
+
+            def note(pats, b, at):
+                d = stored[LANDS[at]]
+                for p in pats:
+                    if p in d:
+                        labels.add("same-string-again-on-a-datasource:" + (
+                            "larger-budget" if b > d[p] else "smaller-budget" if b < d[p] else "same-budget"))
+                    d[p] = max(b, d.get(p, b))
 
             def register(n, p, b, at, targets):
                 filters.add_filter(targets[at], p if case.get("one_by_one", True) else [p], b)
                 labels.add("at=" + at)
-                if at in ("point", "parser", "host", "hparser"):
-                    hb[p] = min(b, hb.get(p, b))
-                if at in ("point", "parser", "arch"):
-                    ab[p] = min(b, ab.get(p, b))
-                if at in ("point", "parser"):
-                    pb[p] = min(b, pb.get(p, b))
+                note([p], b, at)
+
+            def chain(places):
+                """(lo, hi): filter -> smallest / largest of the budgets the datasources of a chain hold for it (an
+                implementation and the spec it implements; the statement does not say which of the two counts)"""
+                lo, hi = {}, {}
+                for k in places:
+                    for p, b in stored[k].items():
+                        lo[p] = min(b, lo.get(p, b))
+                        hi[p] = max(b, hi.get(p, b))
+                return lo, hi
 
             def when_of(f_at, f_when):
                 # an object that is not (yet) an implementation of a filterable spec refuses registrations
@@ -1000,6 +1166,20 @@ def check_content(case):
                     filters.get_filters(c)
                     filters.get_filters(c, True)
                 labels.add("look-up-before-registration")
+            bulk = []
+            if hk == "bulk":
+                # a very large filter set (one registration with a list, as a plugin would write it): around and
+                # above what the kernel accepts as ONE argument of the grep helper
+                bulk = bulk_patterns(helper)
+                bulk_at = helper.get("at", "point") if helper.get("at") in PLACES else "point"
+                bulk_b = helper.get("b", MAXB)
+
+            def register_bulk():
+                filters.add_filter(targets[bulk_at], list(bulk), bulk_b)
+                note(bulk, bulk_b, bulk_at)
+                labels.add("bulk-at=" + bulk_at)
+            if bulk and helper.get("before"):
+                register_bulk()
             for n, (p, b, at) in enumerate(regs):
                 if whens[n] != "late":
                     continue
@@ -1007,12 +1187,30 @@ def check_content(case):
                 if case.get("interleave") and n % 2 == 0:
                     filters.get_filters(hds, True)
                     filters.get_filters(aimpl)
-            for name, comp, want in (("host implementation", hds, hb), ("host implementation", himpl, hb),
-                                     ("archive implementation", aimpl, ab), ("registry point", point, pb)):
+            if bulk and not helper.get("before"):
+                register_bulk()
+            # what is in force: hb / ab / pb = the budget that must at least be honoured for each filter on the host
+            # implementation / the archive implementation / the spec itself (used by the content predicates below)
+            (hb, hb_hi), (ab, ab_hi), (pb, pb_hi) = chain(("host", "point")), chain(("arch", "point")), chain(("point",))
+            for name, comp, want, most in (("host implementation", hds, hb, hb_hi),
+                                           ("host implementation", himpl, hb, hb_hi),
+                                           ("archive implementation", aimpl, ab, ab_hi),
+                                           ("registry point", point, pb, pb_hi)):
                 got = filters.get_filters(comp)
                 if got != set(want):
                     raise Violation("filters in force for the %s are %r, registered so far: %r" % (
-                        name, sorted(got), sorted(want)), registrations=regs, prelook=case.get("prelook"))
+                        name, _abbr(sorted(got)), _abbr(sorted(want))), registrations=regs,
+                        prelook=case.get("prelook"))
+                for p, b in filters.get_filters(comp, True).items():
+                    if type(b) is not int or not want[p] <= b <= most[p]:
+                        raise Violation(
+                            "the match budget in force for filter %r on the %s is %r; registered (in this order): %r "
+                            "- the largest budget registered on a datasource counts for that datasource (expected %s)"
+                            % (_abbr(p), name, b,
+                               [(b_, at_, w_) for w in ("early", "mid", "late")
+                                for (p_, b_, at_), w_ in zip(regs, whens) if p_ == p and w_ == w],
+                               want[p] if want[p] == most[p] else "between %d and %d" % (want[p], most[p])),
+                            registrations=regs, when=whens)
             snap = dict((k, dict(filters.get_filters(c, True))) for k, c in
                         (("hds", hds), ("himpl", himpl), ("aimpl", aimpl), ("point", point)))
             raw_snap = dict((k, dict(filters.FILTERS.get(c, {}))) for k, c in targets.items())
@@ -1036,7 +1234,27 @@ def check_content(case):
             labels.add("engine=" + engine)
             calls = []
             broker = dr.Broker()
-            broker[HostContext] = hctx = _recording_host_context(root, calls)
+            fault = None
+            if hk == "oserror":
+                fault = {"k": hk, "errno": getattr(_errno, helper["errno"])}
+            elif hk == "killed":
+                fault = {"k": hk, "rc": int(helper.get("rc", 137))}
+            if fault:
+                fault.update(first_only=bool(helper.get("first_only")), seen=0, fired=0)
+            labels.add("helper=" + hk)
+
+            def helper_failed(e):
+                """`e` is what became of a pre-filter helper that could not do its work (made to fail by the harness,
+                or refused by the kernel because > 128 KiB of filters do not fit into one argument).  The spec may
+                then end up not collected; whatever IS yielded is still held to the predicates."""
+                if fault and fault["fired"]:
+                    return isinstance(e, (ContentException, CalledProcessError)) or (
+                        hk == "oserror" and isinstance(e, OSError) and e.errno == fault["errno"])
+                if hk == "bulk" and isinstance(e, OSError) and e.errno == _errno.E2BIG:
+                    labels.add("helper=bulk:argument-list-too-long")
+                    return True
+                return False
+            broker[HostContext] = hctx = _recording_host_context(root, calls, fault)
             broker["cleaner"] = Cleaner(None, None, fqdn="c07host.example.com") if use_cleaner else None
             arch_dir = os.path.join(outroot, "archive")
             if pmode == "observer":
@@ -1077,57 +1295,86 @@ def check_content(case):
             else:
                 if kind == "glob" and isinstance(value, list) and len(value) == 1:
                     value = value[0]
-                if not isinstance(value, ContentProvider):
+                excs = [e for es in broker.exceptions.values() for e in es]
+                if not isinstance(value, ContentProvider) and any(helper_failed(e) for e in excs):
+                    # (the providers of the tree as it is are created without running the helper; one that runs it
+                    # right away and fails is "nothing yielded" as well)
+                    labels.add("helper-failed:nothing-yielded")
+                elif not isinstance(value, ContentProvider):
                     raise Violation("a filterable %s spec with filters %r yielded no provider under a host "
-                                    "context" % (kind, sorted(hb)), value=repr(value),
-                                    exceptions=[str(e) for es in broker.exceptions.values() for e in es],
+                                    "context" % (kind, _abbr(sorted(hb))), value=repr(value),
+                                    exceptions=[str(e) for e in excs],
                                     prelook=case.get("prelook"), early=early)
-                wname = "persisted copy [%s, %s] (%s)" % (pmode, "cleaner" if use_cleaner else "no cleaner", kind)
-
-                def observe_content(tag):
-                    try:
-                        hcontent = value.content
-                    except (ContentException, CalledProcessError) as e:
-                        hcontent = []
-                        labels.add("host:" + type(e).__name__)
-                    # the first look is the plain grep pre-filter, which knows no budgets: exactly the matching
-                    # lines (design O-content); once the copy was stored only the statement's predicates are asked
-                    return validate("host pre-filter (%s)%s" % (kind, tag), orig, hcontent, hb, exact=not tag)
-
-                def observe_write(tag):
-                    dst = os.path.join(outroot, "w%s" % tag, "persisted")
-                    try:
-                        value.write(dst)
-                        wcontent = stored_lines(dst)
-                    except (ContentException, CalledProcessError) as e:
-                        wcontent = []
-                        labels.add("persist:" + type(e).__name__)
-                    return validate(wname + tag, orig, wcontent, hb, exact=False)
-                if pmode == "content-first":
-                    results["H"] = observe_content("")
-                    results["W"] = observe_write("")
-                elif pmode == "write-first":
-                    results["W"] = observe_write("")
-                    results["H"] = observe_content(" after write()")
                 else:
-                    files = persisted_by_observer()
-                    if len(files) > 1:
-                        raise Violation("the persister stored more than one file for one single-file spec",
-                                        files=files)
-                    wcontent = stored_lines(files[0]) if files else []
-                    try:
-                        results["W"] = validate(wname, orig, wcontent, hb, exact=False)
-                    except Violation as v:
-                        if not files:
-                            raise Violation("%s: nothing was stored although lines match the filters (%s)" % (
-                                wname, v), exceptions=[str(e) for es in broker.exceptions.values() for e in es])
-                        raise
-                    results["H"] = observe_content(" after the persister ran")
-                if case.get("again"):
-                    # state carried from one call to the next: write once more, look once more
-                    results["W2"] = observe_write(" (2nd write)")
-                    results["H2"] = observe_content(" (2nd look)")
-                    labels.add("written-and-read-twice")
+                    wname = "persisted copy [%s, %s] (%s)" % (pmode, "cleaner" if use_cleaner else "no cleaner", kind)
+
+                    hname = "host pre-filter (%s)" % kind
+                    if hk in ("oserror", "killed"):
+                        what_failed = "%s: %s" % (hk, helper.get("errno") if hk == "oserror" else fault["rc"])
+                        hname += " [grep helper failed - %s]" % what_failed
+                        wname += " [grep helper failed - %s]" % what_failed
+
+                    def observe(key, fn, name, exact):
+                        """one observation of what the host side yields.  Nothing yielded because the helper failed is
+                        fine (the spec is not collected); anything that IS yielded must satisfy the predicates."""
+                        try:
+                            got = fn()
+                        except (ContentException, CalledProcessError, OSError) as e:
+                            if helper_failed(e):
+                                labels.add("helper-failed:nothing-yielded")
+                                return
+                            if not isinstance(e, (ContentException, CalledProcessError)):
+                                raise
+                            got = []
+                            labels.add(("host:" if key.startswith("H") else "persist:") + type(e).__name__)
+                        if fault and fault["fired"]:
+                            exact = False            # (the statement's predicates only)
+                            labels.add("helper-failed:something-yielded")
+                        results[key] = validate(name, orig, got, hb, exact=exact)
+
+                    def observe_content(key, tag):
+                        # the first look is the plain grep pre-filter, which knows no budgets: exactly the matching
+                        # lines (design O-content); once the copy was stored only the statement's predicates are asked
+                        observe(key, lambda: value.content, hname + tag, not tag)
+
+                    def observe_write(key, tag):
+                        dst = os.path.join(outroot, "w%s" % tag, "persisted")
+
+                        def write_and_read():
+                            value.write(dst)
+                            return stored_lines(dst)
+                        observe(key, write_and_read, wname + tag, False)
+                    if pmode == "content-first":
+                        observe_content("H", "")
+                        observe_write("W", "")
+                    elif pmode == "write-first":
+                        observe_write("W", "")
+                        observe_content("H", " after write()")
+                    else:
+                        files = persisted_by_observer()
+                        if len(files) > 1:
+                            raise Violation("the persister stored more than one file for one single-file spec",
+                                            files=files)
+                        wcontent = stored_lines(files[0]) if files else []
+                        excs = [e for es in broker.exceptions.values() for e in es]
+                        if not files and any(helper_failed(e) for e in excs):
+                            labels.add("helper-failed:nothing-yielded")
+                        else:
+                            try:
+                                results["W"] = validate(wname, orig, wcontent, hb, exact=False)
+                            except Violation as v:
+                                if not files:
+                                    raise Violation("%s: nothing was stored although lines match the filters (%s)" % (
+                                        wname, v), exceptions=[str(e) for e in excs])
+                                raise
+                        observe_content("H", " after the persister ran")
+                    if case.get("again"):
+                        # state carried from one call to the next: write once more, look once more
+                        observe_write("W2", " (2nd write)")
+                        observe_content("H2", " (2nd look)")
+                        labels.add("written-and-read-twice")
+                    if hk == "bulk" and "helper=bulk:argument-list-too-long" not in labels:
+                        labels.add("helper=bulk:grep-ran")
 
             # ---- archive side: post-filter with budgets --------------------------------------
             abroker = dr.Broker()
@@ -1204,11 +1451,11 @@ def check_content(case):
         shutil.rmtree(root, ignore_errors=True)
         shutil.rmtree(outroot, ignore_errors=True)
 
-    allf = set(hb) | set(ab)
+    allf = (set(hb) | set(ab)) - set(bulk)
     special = any(p.startswith("-") or any(ch in p for ch in ".*[]()|^$\\+?") for p in allf)
     if any(p.startswith("-") for p in allf):
         labels.add("filter:dash")
-    if hb and max(hb).startswith("-"):
+    if hb and max(hb).startswith("-"):      # (a bulk filter starts with "~", above every dash)
         labels.add("filter:dash-first-in-grep-list")
     if any(any(ch in p for ch in ".*[]()|^$\\+?") for p in allf):
         labels.add("filter:meta")
@@ -1267,6 +1514,16 @@ def _content_case(draw, tier):
         f["b"] = draw(st.sampled_from([1, 2, MAXB]))
         f["at"] = draw(st.sampled_from(PLACES))
         filt.append(f)
+    # registration histories of one string: 0-3 of the filters are registered again - another budget, the same place
+    # (the same datasource keeps them) or another one - at any position of the sequence (so the smaller budget comes
+    # first as often as the larger one); several plugins asking for the same string is what insights.specs is made of
+    if filt and draw(st.integers(0, 1)):
+        for _r in range(draw(st.integers(1, 3))):
+            f = dict(filt[draw(st.integers(0, len(filt) - 1))])
+            f["b"] = draw(st.sampled_from([1, 2, 3, MAXB, MAXB]))
+            if not nof and draw(st.integers(0, 1)):
+                f["at"] = draw(st.sampled_from(PLACES))
+            filt.insert(draw(st.integers(0, len(filt))), f)
     used = [f["p"] for f in filt] or ["a"]
     near = [n for p in used for n in _near(p) if n and n not in used]
     near = near or _FILL
@@ -1306,6 +1563,23 @@ def _content_case(draw, tier):
                        "what": draw(st.sampled_from(["point", "point", "impl", "both"]))}
     case["engine"] = draw(st.sampled_from(["run", "run", "run_all"]))
     case["again"] = draw(st.integers(0, 2)) == 0
+    # ---- the grep helper of the host-side pre-filter does not do its work (1 case in 5) -----------------------------
+    hk = draw(st.sampled_from(["none"] * 12 + ["oserror", "killed", "bulk"]))
+    if hk == "oserror":        # the process cannot be started (what Popen raises for fork / exec failures)
+        case["helper"] = {"k": hk, "errno": draw(st.sampled_from(ERRNOS)), "first_only": draw(st.booleans())}
+    elif hk == "killed":       # killed before it wrote anything: timeout -s KILL / -s TERM, OOM killer, plain signal
+        case["helper"] = {"k": hk, "rc": draw(st.sampled_from([137, 137, 124, 143, -9, -15])),
+                          "first_only": draw(st.booleans())}
+    elif hk == "bulk":         # nothing is made to fail: the filter set is around / above 128 KiB in one argument
+        case["helper"] = {"k": hk, "n": draw(st.sampled_from([1, 3, 40, 400, 1500] if tier == "quick" else
+                                                             [1, 3, 40, 400, 1500, 4000])),
+                          "size": draw(st.sampled_from([60000, 131000, 131060, 131072, 131100, 140000, 200000,
+                                                        400000])),
+                          "at": "arch" if nof else draw(st.sampled_from(["point", "point", "parser", "host", "hparser",
+                                                                         "arch"])),
+                          "b": draw(st.sampled_from([MAXB, MAXB, 1, 3])), "before": draw(st.booleans())}
+    else:
+        case["helper"] = {"k": "none"}
     return case
 
 
@@ -1394,6 +1668,18 @@ def selftest():
     assert m2.unbound_sets() == [] and m2.attached("I0.0") and m2.attached("I0.1.1")
     assert sorted(m2.bounds("I0.0")[0]) == ["x"] and sorted(m2.bounds("I0.1.0")[0]) == ["y"]
     assert m2.land("I0.0") == ["I0.0"] and m2.land("R1") == ["I0.0"]
+    # budgets: per datasource the largest registered one, whatever the order; over a chain a range
+    m3 = Model(w2)
+    m3.bind(0)
+    for t, b in (("P0", 1), ("R0", 7), ("P0", 2), ("I0.0", 3), ("R1", 1), ("I1.0", MAXB)):
+        m3.register(t, ["k"], b)
+    assert m3.stored("P0") == {"k": 7} and m3.stored("I0.0") == {"k": 3} and m3.stored("I1.0") == {"k": MAXB}
+    assert m3.budget_bounds("P0") == {"k": (7, 7)} and m3.budget_bounds("I0.0") == {"k": (3, 7)}
+    assert m3.budget_bounds("I1.0") == {"k": (7, MAXB)} and m3.budget_bounds("P1") == {}
+    b3 = bulk_patterns({"n": 3, "size": 131072})
+    assert len(b3) == 3 == len(set(b3)) and len("\n".join(b3)) in (131071, 131072) and len(bulk_patterns({"n": 1})) == 1
+    assert _is_prefilter([["grep", "-F", "-e", "a", "/x"]]) and _is_prefilter([["/bin/cat", "x"], ["grep", "-F", "-e", "a"]])
+    assert not _is_prefilter([["/bin/cat", "grep -F"]]) and not _is_prefilter("grep -F x")
     # predicates
     orig = ["#0#a", "", "#2#ab", "#3#b", "#4#zz", "#5#a"]
 
